@@ -9,6 +9,7 @@ import (
 
 	"github.com/ipfs/go-graphsync"
 	"github.com/ipfs/go-graphsync/cidset"
+	"github.com/ipfs/go-graphsync/dedupkey"
 	"github.com/ipfs/go-graphsync/donotsendfirstblocks"
 
 	"verif/harness/rt"
@@ -39,6 +40,11 @@ func TestC24(t *testing.T) {
 				}
 			}
 			exts = append(exts, graphsync.ExtensionData{Name: graphsync.ExtensionDoNotSendCIDs, Data: cidset.EncodeCidSet(set)})
+			if r.Intn(2) == 0 {
+				// together with a dedup key (what a requestor using a named persistence option sends)
+				dk, _ := dedupkey.EncodeDedupKey("verif-scope")
+				exts = append(exts, graphsync.ExtensionData{Name: graphsync.ExtensionDeDupByKey, Data: dk})
+			}
 		}
 		rep.Journal("case %d blocks=%d req=%s resp=%s userSkip=%d userCids=%d", ci, len(c.DAG.Blocks), c.ReqClass, c.RespClass, userSkip, len(userCids))
 		var x *Exchange
